@@ -33,6 +33,13 @@ type arapCase struct {
 	Prev  []int `json:"prev,omitempty"`
 	Shift int   `json:"shift,omitempty"`
 	Warm  bool  `json:"warm,omitempty"`
+	// MinIt: 0 = default, k > 0 = SetMinIterations(k).  ZeroIt: SetMaxIterations(0) — no optimisation step at
+	// all; the result is whatever the initial guess is after the constraints have been imposed on it, so the
+	// constraints must still be met exactly (nothing else is asserted then).  Guess (not Seq): go through
+	// DeformMap with an explicit initial guess that ignores the constraints (the undeformed vertex positions).
+	MinIt  int  `json:"minit,omitempty"`
+	ZeroIt bool `json:"zeroit,omitempty"`
+	Guess  bool `json:"guess,omitempty"`
 }
 
 var arapKinds = []string{"icosphere", "icosphere", "subbox", "torus", "cylinder", "csg", "field", "polar", "icosahedron"}
@@ -60,7 +67,11 @@ func genARAP(t *rapid.T) arapCase {
 		}
 		c.Shift = gen.Int(t, 1, 40, "shift")
 		c.Warm = gen.Int(t, 0, 2, "warm") == 0
+	} else {
+		c.Guess = gen.Int(t, 0, 3, "guess") == 0
 	}
+	c.MinIt = pickOf(t, []int{0, 0, 1, 3}, "minit")
+	c.ZeroIt = gen.Int(t, 0, 5, "zeroit") == 0
 	return c
 }
 
@@ -162,6 +173,13 @@ func checkARAP(c arapCase, o *kit.Obs) error {
 	if c.MaxIt > 0 {
 		a.SetMaxIterations(c.MaxIt)
 	}
+	if c.MinIt > 0 {
+		a.SetMinIterations(c.MinIt)
+	}
+	if c.ZeroIt {
+		a.SetMaxIterations(0)
+		o.Label("arap:zero-iterations")
+	}
 	cm := model3d.ARAPConstraints{}
 	for _, i := range cons {
 		cm[m3.C3(im.V[i])] = m3.C3(want[i])
@@ -198,6 +216,14 @@ func checkARAP(c arapCase, o *kit.Obs) error {
 			o.Labelf("arap:seq-prev-mode-%d", mode)
 		}
 		res = def(cm)
+	} else if c.Guess {
+		o.Label("arap:deformmap-with-guess")
+		guess := map[model3d.Coord3D]model3d.Coord3D{}
+		for _, v := range im.V {
+			guess[m3.C3(v)] = m3.C3(v)
+		}
+		mapping := a.DeformMap(cm, guess)
+		res = mesh.MapCoords(func(p model3d.Coord3D) model3d.Coord3D { return mapping[p] })
 	} else {
 		res = a.Deform(cm)
 	}
@@ -213,7 +239,13 @@ func checkARAP(c arapCase, o *kit.Obs) error {
 			return fmt.Errorf("%s: constrained vertex %v must land exactly on %v, which is not a vertex of the result", what, im.V[i], want[i])
 		}
 	}
-	if weights == 3 || (c.Seq && c.Warm && len(c.Prev) > 0) {
+	warmOther := false
+	for _, mode := range c.Prev {
+		if mode != 0 {
+			warmOther = true
+		}
+	}
+	if c.ZeroIt || weights == 3 || (c.Seq && c.Warm && warmOther) {
 		// different weights for the linear solve and for the rotation fit (or a warm start from another pose): the alternation does not descend on
 		// one energy and is not claimed to reach the rigid solution (it settles elsewhere on tori);
 		// constraints and connectivity only
